@@ -1,7 +1,7 @@
 (* Entry points extracted for the correspondence check of C14 (unique c14_ prefix).  The curve parameters are
    explicit arguments (secp256k1 or a small curve, chosen by the harness). *)
 Require Import Bits.Lib.Result Bits.Lib.Bytes Bits.Model.Ecmath Bits.Model.Keys Bits.Model.Sec1 Bits.Model.Wif
-  Bits.Model.Asn1 Bits.Model.Pem Bits.Model.CliKeys.
+  Bits.Model.Asn1 Bits.Model.Pem Bits.Model.CliKeys Bits.Model.PemExt.
 Definition c14_pubkey := pubkey.
 Definition c14_point := sec1_point.
 Definition c14_is_point := is_point.
@@ -22,3 +22,11 @@ Definition c14_pubkey_from_pem := pubkey_from_pem.
 Definition c14_cli_pubkey := cli_pubkey.
 (* a sequence of dict-mode decodes in one process: every result is what a fresh decode of that string gives *)
 Definition c14_wif_decode_seq (sha256 : bytes -> bytes) (ws : list bytes) := mapM (wif_decode_full sha256) ws.
+
+(* ---- armor layer for any label (Model/PemExt.v, theorems in Props/C14Ext.v) ---- *)
+Definition c14_decode_pem := decode_pem.
+Definition c14_encode_pem_default := encode_pem_default.
+(* encode_pem(der, BEGIN label, END label), white space around it, decode_pem of that text: (the armor text, the bytes) *)
+Definition c14_pem_roundtrip (b64enc : bytes -> bytes) (b64dec : bytes -> option bytes) (label der ws1 ws2 : bytes) :=
+  let pem := encode_pem b64enc der (pem_header label) (pem_footer label) in
+  bind (decode_pem b64dec (List.app ws1 (List.app pem ws2))) (fun d => Ok (pem, d)).
